@@ -40,7 +40,7 @@
 (*   int <<>> <<i>>, round, mod3 <<x>> (x as unsigned big-endian integer, mod 3), lastbyte <<x>>,    *)
 (*   sel <<i, x0, x1, ..>> (the (i+1)-th alternative), geq leq sub and eq <<a, b>>, all <<bools>>    *)
 (*   pw <<seg..>>, seg <<>> <<len>> id : SYMBOLIC passwords (model checking only, never emitted)    *)
-EXTENDS Integers, Sequences, FiniteSets
+EXTENDS Integers, Sequences, FiniteSets, TLC
 
 T(op, a, n, s) == [op |-> op, a |-> a, n |-> n, s |-> s]
 
@@ -328,6 +328,27 @@ ValidCfg(c) ==
       [] c.R = 4 -> c.V = 4 /\ c.bits = 128 /\ c.stmf \in {"V2", "AESV2"} /\ c.strf \in {"V2", "AESV2"}
       [] c.R \in {5, 6} -> c.V = 5 /\ c.bits = 256 /\ c.stmf = "AESV3" /\ c.strf = "AESV3"
       [] OTHER -> FALSE
+(* The Length entry of the encryption dictionary (Table 20): "only if V is 2 or 3", a multiple of 8 in 40..128,  *)
+(* default 40.  For the other values of V the key length is fixed by V (1: 40 bits, 4: 128 bits, 5: 256 bits) and  *)
+(* the entry does not apply: a reader ignores it, and writers do emit it with the length V implies (/Length 128     *)
+(* with V 4, /Length 256 with V 5 are what Acrobat and qpdf write).  -1 stands for "no Length entry".              *)
+LegalLengths(c) ==
+    CASE c.V = 1 -> {-1, 40}
+      [] c.V = 2 -> {c.bits} \cup (IF c.bits = 40 THEN {-1} ELSE {})
+      [] c.V = 4 -> {-1, 128}
+      [] OTHER  -> {-1, 256}
+\* the key length in bits a reader derives from V and the Length entry
+ReaderBits(V, len) ==
+    CASE V = 1 -> 40
+      [] V = 2 -> IF len = -1 THEN 40 ELSE len
+      [] V = 4 -> 128
+      [] OTHER -> 256
+\* the form most writers use / the standard's own (the reference form a failing variant is compared with)
+CanonLength(c) == CASE c.V = 1 -> -1 [] c.V = 2 -> c.bits [] c.V = 4 -> 128 [] OTHER -> -1
+\* input class of a document whose Length entry has another legal form
+LenClass(c, len) == IF len = CanonLength(c) THEN "none"
+                    ELSE "V" \o ToString(c.V) \o "." \o (IF len = -1 THEN "absent" ELSE ToString(len))
+
 MethodOf(c, kind) == IF IsStringKind(kind) THEN c.strf ELSE c.stmf
 
 \* P as a signed 32-bit integer: all bits 1 except bits 1-2 (reserved 0) and the permission bits switched off
